@@ -580,6 +580,27 @@ def keyed_signature(prop, t):
     return sig
 
 
+def what_hash(prop, bad):
+    """A short hash of WHAT failed on the input (audit item 24: the input-keyed signature used to cover ANY failure of the
+    query): C12 the spans of the overlapping pairs, C01 the spans of the offending entities and the reason."""
+    try:
+        if prop == 'C01':
+            parts = sorted('%s,%s,%s' % (e[0], e[1], why) for e, why in bad)
+        else:
+            parts = sorted('%s,%s,%s,%s' % ((a[0], a[1], b[0], b[1]) if (a[0], a[1]) <= (b[0], b[1]) else (b[0], b[1], a[0], a[1]))
+                           for a, b in bad)
+    except Exception:
+        parts = [json.dumps(bad, default=str, sort_keys=True)]
+    return hashlib.sha1('|'.join(parts).encode('utf-8')).hexdigest()[:8]
+
+
+def keyed_signature2(prop, t, bad):
+    """input + reference + WHAT failed.  New recorded entries use this key; the entries recorded under the old key
+    (`keyed_signature`) stay valid as a fallback, narrowed by findings/sets/<property>/narrow.json to the failure observed for
+    them on the unchanged tree (vcheck `match_known`)."""
+    return keyed_signature(prop, t) + ':w' + what_hash(prop, bad)
+
+
 def still_fails(prop, q, spans):
     if spans is None:
         return True
@@ -595,9 +616,10 @@ def classify(ctx, prop, fails):
         return
     # failures already recorded keyed by input need no mechanism search; only unrecorded ones are re-run with
     # the proposed repairs patched in
-    recorded = {f.get('signature') for f in ctx.known.get('findings', []) if f.get('property') == prop}
-    listed = [x for x in fails if keyed_signature(prop, x[0]) in recorded]
-    fails = [x for x in fails if keyed_signature(prop, x[0]) not in recorded]
+    def is_listed(x):
+        return ctx.match_known(keyed_signature2(prop, x[0], x[2]), (keyed_signature(prop, x[0]),)) is not None
+    listed = [x for x in fails if is_listed(x)]
+    fails = [x for x in fails if not is_listed(x)]
     remaining = list(fails) + listed
     classes = []
     if prop == 'C01':
@@ -647,7 +669,7 @@ def classify(ctx, prop, fails):
                     return False
                 shared = t[3][b[0]:a[1] + 1]
                 return 0 < len(shared) <= 6 and not any(c.isdigit() for c in shared) and shared.strip() != ''
-            if t[0] == 'NumberWithUnit' and keyed_signature(prop, t) not in recorded and bad and all(shared_symbol(a, b) for a, b in bad):
+            if t[0] == 'NumberWithUnit' and not is_listed(x) and bad and all(shared_symbol(a, b) for a, b in bad):
                 ctx.report('property', 'nwu-shared-unit-symbol:%s' % t[1],
                            '%s %s on %r: %s (one unit symbol claimed as suffix of the left and prefix of the right entity)' % (
                                t[1], t[2], t[3], describe(prop, bad)),
@@ -656,17 +678,12 @@ def classify(ctx, prop, fails):
                 still.append(x)
         remaining = still
     for (t, f, bad, spans) in remaining:
-        kind = 'span' if prop == 'C01' else 'overlap'
-        sig = '%s:%s:%s:%s' % (kind, t[2], t[1], sha(t[3]))
-        if t[4] is not None:
-            sig += ':' + ref_str(t[4])
-        ctx.report('property', sig, '%s %s on %r: %s' % (t[1], t[2], t[3], describe(prop, bad)),
-                   failing_input=fi(prop, t, f, bad, spans), property_fails=True)
+        ctx.report('property', keyed_signature2(prop, t, bad), '%s %s on %r: %s' % (t[1], t[2], t[3], describe(prop, bad)),
+                   failing_input=fi(prop, t, f, bad, spans), property_fails=True, fallback=(keyed_signature(prop, t),))
     ctx.extra.setdefault('observed_failures', []).extend(
         [{'signature': s, 'input': x[0][3], 'culture': x[0][2], 'model': x[0][1], 'reference': ref_str(x[0][4]),
           'family': x[1], 'detail': json.loads(json.dumps(x[2], default=str))} for s, x in classes] +
-        [{'signature': '%s:%s:%s:%s%s' % ('span' if prop == 'C01' else 'overlap', x[0][2], x[0][1], sha(x[0][3]),
-                                          (':' + ref_str(x[0][4])) if x[0][4] is not None else ''),
+        [{'signature': keyed_signature2(prop, x[0], x[2]), 'signature_without_what': keyed_signature(prop, x[0]),
           'input': x[0][3], 'culture': x[0][2], 'model': x[0][1], 'reference': ref_str(x[0][4]), 'family': x[1],
           'detail': json.loads(json.dumps(x[2], default=str))} for x in remaining])
 
